@@ -128,6 +128,21 @@ class CallGraph:
         self._edges[fn.path] = out
         return out
 
+    def callers(self, fn):
+        """(caller, bb, terminator) of every call in the analysed crates that resolves to fn"""
+        if not hasattr(self, '_callers'):
+            self._callers = {}
+            for fs in self.by_path.values():
+                for g in fs:
+                    for bb, t in g.calls():
+                        for key in ('resolved', 'callee'):
+                            p = t.get(key)
+                            if p and norm(p) in self.by_path:
+                                for h in self.by_path[norm(p)]:
+                                    self._callers.setdefault(h.path, []).append((g, bb, t))
+                                break
+        return self._callers.get(fn.path, [])
+
     def reach(self, roots, stop=lambda f: False):
         seen = {}
         work = list(roots)
@@ -186,3 +201,46 @@ class Summaries:
                         out.append(bb)
                     break
         return out
+
+
+def deep_origins(cg, fn, operand, depth=3, _seen=None, stop_calls=(), **kw):
+    """origins() continued across function boundaries of the analysed crates: a parameter is followed into the matching argument of
+    every caller, the result of a call to a local function into that function's return value.  Returns [(function, Origin)].
+    Lets provenance rules survive the extraction (or inlining) of helper functions."""
+    _seen = _seen if _seen is not None else set()
+    out = []
+    for o in origins(fn, operand, **kw):
+        key = (fn.path, o.kind, getattr(o, 'n', None), getattr(o, 'bb', None), tuple(getattr(o, 'suffix', []) or []))
+        if key in _seen:
+            continue
+        _seen.add(key)
+        if depth > 0 and o.kind == 'arg' and fn.kind != 'Closure':
+            cs = cg.callers(fn)
+            if cs:
+                for caller, bb, t in cs:
+                    k = o.n - 1
+                    if k < len(t['args']) and 'l' in t['args'][k]:
+                        a = dict(t['args'][k])
+                        a['p'] = list(a.get('p', [])) + list(o.suffix or [])
+                        out += deep_origins(cg, caller, a, depth - 1, _seen, stop_calls, **kw)
+                    else:
+                        out.append((caller, Origin_const(t['args'][k] if k < len(t['args']) else {})))
+                continue
+        if depth > 0 and o.kind == 'call' and not (stop_calls and call_matches(o.term, list(stop_calls))):
+            callee = None
+            for keyp in ('resolved', 'callee'):
+                p = o.term.get(keyp)
+                if p and norm(p) in cg.by_path:
+                    callee = [g for g in cg.by_path[norm(p)] if g.kind != 'Closure']
+                    break
+            if callee:
+                for g in callee:
+                    out += deep_origins(cg, g, {'l': 0, 'p': list(o.suffix or [])}, depth - 1, _seen, stop_calls, **kw)
+                continue
+        out.append((fn, o))
+    return out
+
+
+def Origin_const(operand):
+    from rules.facts import Origin
+    return Origin('const', s=operand.get('s') or operand.get('fn'), v=operand.get('v'), fn=operand.get('fn'), static=operand.get('static'), suffix=[], steps=[])
